@@ -99,7 +99,9 @@ RULE = ("every (simple-type class | XML-mapped enum | element attribute declarat
         "literals, hex colours, free tokens, every enumeration token) that libxml2 accepts for the XSD "
         "type. Non-trivial = the implementation ACCEPTED the value and wrote a string that was validated "
         "against the XSD type and read back (distinct by construction: one per (target, value, state)), "
-        "plus every lexical form read.")
+        "plus every lexical form read. Read histories: for every ordered pair (A, B) of XML-mapped enumerations, "
+        "every token of B is read after every token of A was read in the same pristine process (non-trivial = the "
+        "token belongs to both).")
 ASSUMPTIONS = [
     "libxml2 (lxml.etree.XMLSchema) compiled from the ISO/IEC 29500-4 transitional and 29500-2 OPC XSDs in "
     "/repo/spec is the authority on lexical validity; generated probe elements expose each simple type",
@@ -1281,6 +1283,65 @@ def _job_class_fwd(args):
     return ctx, viol, verdicts
 
 
+def _enum_tokens(K):
+    """The distinct non-empty XML tokens of enumeration K, in definition order."""
+    out = []
+    for m in K:
+        t = getattr(m, "xml_value", None)
+        if t and t not in out:
+            out.append(t)
+    return out
+
+
+def cross_enum_read(M, first, second, token):
+    """`second.from_xml(token)` after enumeration `first` was read: the member must belong to `second` and be
+    written as `token` again (the first member carrying the token, for aliases). -> failure message or None"""
+    B = M.enums[second]
+    try:
+        r = B.from_xml(token)
+    except Exception as e:
+        return "%s.from_xml(%r) raised %s after %s had been read; the token is a member of %s" % (
+            second, token, type(e).__name__, first, second)
+    if type(r) is not B or getattr(r, "xml_value", None) != token:
+        return "%s.from_xml(%r) returned %s.%s (written %r) after every token of %s had been read in the same process" % (
+            second, token, type(r).__name__, getattr(r, "name", r), getattr(r, "xml_value", None), first)
+    return None
+
+
+def _job_cross_enum(args):
+    """One child per FIRST enumeration A: every token of A is read, then every token of every other XML-mapped
+    enumeration; a read must not depend on what another enumeration read before. -> Partial"""
+    from mc.core.run import Partial
+    first, _skip = args
+    M = _M
+    ctx = Partial()
+    found = _Found()
+    _mark(K_CR, 0)
+    A = M.enums[first]
+    for t in _enum_tokens(A):
+        try:
+            A.from_xml(t)
+        except Exception:
+            pass   # an unreadable own token is phase 1's business
+    for second in sorted(M.enums):
+        if second == first:
+            continue
+        shared = set(_enum_tokens(A))
+        for t in _enum_tokens(M.enums[second]):
+            ctx.count("evaluations")
+            ctx.count("cross_enum_read_cases")
+            if t in shared:
+                ctx.count("nontrivial_count")
+            msg = cross_enum_read(M, first, second, t)
+            ctx.outcome("from_xml-after-other-enum:" + second, "own member" if msg is None else "foreign")
+            if msg:
+                found.add("C11|enum-read-history|%s|after:%s" % (second, first), msg,
+                          {"kind": "cross_enum", "first": first, "second": second, "token": t,
+                           "rule": "enum-read-history"}, t)
+    found.emit(ctx)
+    return ctx
+
+
 def _job_class_rev(args):
     """Backward walk of one class's alphabet in a pristine process: only the verdicts are wanted."""
     name, skip = args
@@ -1654,6 +1715,20 @@ def run(ctx):
     hang_found.emit(ctx)
     all_hangs = hangs1 + hangs2
 
+    # phase 3: reads of one enumeration after another enumeration was read in the same process (two-step read
+    # histories over every ordered pair of XML-mapped enumerations; one pristine child per first enumeration)
+    order_x = ctx.rotate(sorted(M.enums))
+    specs3 = [(_job_cross_enum, n, n) for n in order_x]
+    res3, hangs3, _ = _run_with_retries(M, specs3, nproc, deadline, learned)
+    n_cross = 0
+    for n, r in zip(order_x, res3):
+        if r is not None:
+            ctx.merge(r)
+    for a in M.enums:
+        n_cross += sum(len(_enum_tokens(M.enums[b])) for b in M.enums if b != a)
+    if hangs3:
+        raise HarnessError("cross-enumeration read pass did not return for %s" % [order_x[h[0]] for h in hangs3])
+
     # history: forward against backward verdicts
     hist = _Found()
     for name in wnames:
@@ -1677,7 +1752,7 @@ def run(ctx):
                           "rule": "history"}, label)
     hist.emit(ctx)
 
-    expected = n_class + 2 * n_class_writes + n_attr
+    expected = n_class + 2 * n_class_writes + n_attr + n_cross
     done = ctx.counters.get("evaluations", 0)
     if all_hangs:
         lost = expected - done
@@ -1697,7 +1772,8 @@ def run(ctx):
     ctx.extra["alphabet_sizes"] = {n: len(M.alpha(n)) for n in sorted(M._alpha)}
     ctx.extra["equivalent_pair_families"] = sorted({k for d in M.decls for _, _, k in M.decl_pairs(d)})
     ctx.extra["classes_with_own_range(rejects-valid)"] = {n: list(M.own_range(n)) for n in names if M.own_range(n)}
-    ctx.extra["forked_children"] = len(specs1) + len(specs2) + len(all_hangs)
+    ctx.extra["forked_children"] = len(specs1) + len(specs2) + len(specs3) + len(all_hangs)
+    ctx.extra["cross_enum_read_cases(ordered pairs of enumerations x tokens of the second)"] = n_cross
     d0 = M._decl_by_key.get(("a:lin", "ang")) or M.decls[0]
     ctx.sample({"decl": d0.key, "class": d0.st_name, "xsd": [t[1] for t in d0.types],
                 "values": [l for l, _ in M.alpha(d0.st_name)][:40], "lexical_forms_read": M.decl_read_pool(d0)[:20]})
@@ -1737,6 +1813,31 @@ def _replay_child(data):
             return ("%s.to_xml(%s): %s as the first value written, %s after its equal-valued peers were written"
                     % (data["cls"], data["label"], v1, v2))
         return None
+    if kind == "cross_enum":
+        for t in _enum_tokens(M.enums[data["first"]]):
+            try:
+                M.enums[data["first"]].from_xml(t)
+            except Exception:
+                pass
+        # the same sequence of reads as in the run: the enumerations before `second` (sorted), then `second`
+        for other in sorted(M.enums):
+            if other in (data["first"], data["second"]):
+                continue
+            if other > data["second"]:
+                break
+            for t in _enum_tokens(M.enums[other]):
+                try:
+                    M.enums[other].from_xml(t)
+                except Exception:
+                    pass
+        for t in _enum_tokens(M.enums[data["second"]]):
+            if t == data["token"]:
+                break
+            try:
+                M.enums[data["second"]].from_xml(t)
+            except Exception:
+                pass
+        return cross_enum_read(M, data["first"], data["second"], data["token"])
     if kind == "class_write":
         fails = class_write(M, data["cls"], data["spec"])[1]
     elif kind == "class_read":
